@@ -196,6 +196,15 @@ module Nat =
   let ltb n0 m =
     leb (S n0) m
 
+  (** val min : nat -> nat -> nat **)
+
+  let rec min n0 m =
+    match n0 with
+    | O -> O
+    | S n' -> (match m with
+               | O -> O
+               | S m' -> S (min n' m'))
+
   (** val divmod : nat -> nat -> nat -> nat -> nat * nat **)
 
   let rec divmod x y q u =
@@ -892,13 +901,12 @@ type 'a outcome =
 | Ret of 'a
 | Raise of exn
 
-(** val py_pos : nat -> z -> nat option **)
+(** val clip : z -> z -> z **)
 
-let py_pos n0 i =
-  let n' = Z.of_nat n0 in
-  if (||) (Z.ltb i (Z.opp n')) (Z.leb n' i)
-  then None
-  else Some (Z.to_nat (if Z.ltb i Z0 then Z.add i n' else i))
+let clip n0 i =
+  if Z.ltb i Z0
+  then if Z.ltb (Z.add i n0) Z0 then Z0 else Z.add i n0
+  else if Z.ltb n0 i then n0 else i
 
 (** val uint_of_char : char -> uint option -> uint option **)
 
@@ -3925,11 +3933,6 @@ let model_lines model =
 let split_M model =
   split_lines s0 (model_lines model)
 
-(** val mem_string : char list -> char list list -> bool **)
-
-let mem_string k l =
-  existsb (eqb0 k) l
-
 (** val dict_combine :
     char list -> symbol -> (char list * symbol) list -> (char list * symbol)
     list outcome **)
@@ -3950,14 +3953,6 @@ let rec equation_symbols_go equation code terms symbols functions =
   | [] -> Ret symbols
   | t :: rest ->
     (match t.ttype with
-     | TFunction ->
-       let sym = { sname = (Some t.tname); stype = TFunction; slags =
-         t.tindex; sleads = t.tindex; sequation = None; scode = None }
-       in
-       if mem_string t.tname functions
-       then equation_symbols_go equation code rest symbols functions
-       else equation_symbols_go equation code rest
-              (dict_set t.tname sym symbols) (t.tname :: functions)
      | TVerbatim -> equation_symbols_go equation code rest symbols functions
      | x ->
        let sym =
@@ -4504,6 +4499,7 @@ type chk_res =
 | ChkSyntaxWarning
 | ChkOtherWarning of nat
 | ChkOtherExn
+| ChkCaughtExn
 
 type verdict =
 | VFine
@@ -4698,17 +4694,20 @@ let class_of syms o =
 let default_range n0 lags leads =
   if Nat.eqb n0 O
   then Raise (SolutionError None)
-  else (match py_pos n0 lags with
-        | Some a ->
-          (match py_pos n0 (Z.sub (Zneg XH) leads) with
-           | Some b ->
-             Ret
-               (map (fun i -> Z.add (Z.of_nat a) (Z.of_nat i))
-                 (seq O
-                   (Z.to_nat
-                     (Z.sub (Z.add (Z.of_nat b) (Zpos XH)) (Z.of_nat a)))))
-           | None -> Raise IndexError)
-        | None -> Raise IndexError)
+  else if Z.leb (Z.of_nat n0) lags
+       then Raise IndexError
+       else if Z.ltb (Z.sub (Z.sub (Z.of_nat n0) (Zpos XH)) leads) Z0
+            then Raise IndexError
+            else let stop = Z.sub (Z.of_nat n0) leads in
+                 let positions = Z.to_nat (Z.sub stop lags) in
+                 let labels =
+                   Z.to_nat
+                     (Z.sub (clip (Z.of_nat n0) stop)
+                       (clip (Z.of_nat n0) lags))
+                 in
+                 Ret
+                 (map (fun i -> Z.add lags (Z.of_nat i))
+                   (seq O (Nat.min positions labels)))
 
 (** val is_printable : char -> bool **)
 
